@@ -17,6 +17,7 @@
 From Coq Require Import List NArith Bool Arith.
 From Mila Require Import Lib.Bytes Lib.Machine Model.Localize Proofs.LocalizeProofs Model.LayeredFS
   Proofs.LayeredFSBase Proofs.LayeredFSStack Proofs.LayeredFSList Proofs.LayeredFSWf.
+From Mila Require Import Model.LZCore Model.LZ10 Model.LZ11 Model.LZSpec Model.LZDecode Proofs.LayeredFSCodec.
 Import ListNotations.
 Local Open Scope N_scope.
 
@@ -227,3 +228,79 @@ Example C12_example_failed_write :
   let '(S', r) := fs_write ex_comp ex_fs [110; 47; 102; 47] [7] false in
   r = FErr EWrite /\ l_get (last (layers S') []) [[110]] = Some Dir /\ l_get (last (layers ex_fs) []) [[110]] = None.
 Proof. vm_compute. repeat split. Qed.
+
+(* ---- the codec half: the section variables instantiated with the models of mila's two codecs ---- *)
+(* the round-trip law holds for the real codecs (C08_library_round_trip, C09_library_round_trip, C09_empty_input),
+   on every byte string shorter than 16 MiB - the empty payload included - whatever profile wrote and reads *)
+Theorem C12_real_codec_round_trip : forall mc md f b c,
+  wfb b -> lenN b < 2 ^ 24 -> real_compress mc f b = Ok c -> real_decompress md f c = Ok b.
+Proof. intros mc md f b c Hw Hn. exact (real_codec_round_trip mc md f b c (conj Hw Hn)). Qed.
+
+(* read after write with LZ10 (FE9/FE10) and LZ13 (FE13-FE15) *)
+Theorem C12_read_after_write_real : forall mc md S p b loc S',
+  fs_write (real_compress mc) S p b loc = (S', FOk tt) -> wfb b -> lenN b < 2 ^ 24 ->
+  fs_read (real_decompress md) S' p loc = FOk b.
+Proof. exact real_read_after_write. Qed.
+
+(* the stored file: a valid compressed stream of the payload for a name with the game's suffix (LZ10: the strict
+   parser accepts it with the payload's size and its tokens expand to the payload; LZ13: 0x13 wrapper + such an LZ11
+   stream, the fixed 12-byte form for the empty payload), the payload itself otherwise *)
+Theorem C12_stored_stream_real : forall mc S p b loc S',
+  fs_write (real_compress mc) S p b loc = (S', FOk tt) -> wfb b -> lenN b < 2 ^ 24 ->
+  exists s pp c, fs_addr S p loc = FOk (s, (pp, false)) /\
+    l_get (last (layers S') []) pp = Some (File c) /\
+    if is_compressed (c_comp (conf S)) p then valid_stream (c_comp (conf S)) b c else c = b.
+Proof. exact real_write_stored. Qed.
+
+(* the codec never makes a write of a payload below 16 MiB fail *)
+Theorem C12_encode_never_fails_real : forall mc S p b, lenN b < 2 ^ 24 ->
+  exists c, encode_by_name (real_compress mc) S p b = FOk c.
+Proof. exact real_encode_ok. Qed.
+
+(* per game: codec, suffixes, and what the instantiated codec functions are *)
+Theorem C12_codec_of_game : forall ls l g S, fs_new ls l g = FOk S ->
+  match g with
+  | FE9 | FE10 =>
+    c_comp (conf S) = LayeredFS.LZ10 /\
+    (forall p, is_compressed (c_comp (conf S)) p = orb (ends_with sfx_cms p) (ends_with sfx_cmp p)) /\
+    (forall mc b, real_compress mc (c_comp (conf S)) b = Ok (compress10 b)) /\
+    (forall md c, real_decompress md (c_comp (conf S)) c = lz10_decompress md c)
+  | FE13 | FE14 | FE15 =>
+    c_comp (conf S) = LayeredFS.LZ13 /\
+    (forall p, is_compressed (c_comp (conf S)) p = ends_with sfx_lz p) /\
+    (forall mc b, real_compress mc (c_comp (conf S)) b = compress13 mc b) /\
+    (forall md c, real_decompress md (c_comp (conf S)) c = lz13_decompress md c)
+  | FE11 | FE12 => False
+  end.
+Proof. exact real_codec_of_game. Qed.
+
+(* everything together, per game *)
+Theorem C12_read_after_write_by_game : forall mc md ls l g S p b loc S',
+  fs_new ls l g = FOk S ->
+  fs_write (real_compress mc) S p b loc = (S', FOk tt) -> wfb b -> lenN b < 2 ^ 24 ->
+  fs_read (real_decompress md) S' p loc = FOk b /\
+  exists s pp c, fs_addr S p loc = FOk (s, (pp, false)) /\ l_get (last (layers S') []) pp = Some (File c) /\
+    match g with
+    | FE9 | FE10 => if orb (ends_with sfx_cms p) (ends_with sfx_cmp p)
+                    then valid_stream LayeredFS.LZ10 b c /\ lz10_decompress md c = Ok b else c = b
+    | _ => if ends_with sfx_lz p then valid_stream LayeredFS.LZ13 b c /\ lz13_decompress md c = Ok b else c = b
+    end.
+Proof. exact real_read_after_write_by_game. Qed.
+
+(* non-vacuity: FE10 writes "a.cmp" as an LZ10 stream, FE14 writes "a.lz" as a wrapped LZ11 stream; read back in the other profile *)
+Example C12_example_real_fe10 :
+  let S := mkFs [[]] (mkConfig LayeredFS.LZ10 GFE10 BE ShiftJIS) EnglishNA in
+  let p := [97; 46; 99; 109; 112] in
+  let b := [5; 5; 5; 5; 5; 5; 5; 5; 5; 5] in
+  let '(S', r) := fs_write (real_compress Checked) S p b false in
+  r = FOk tt /\ l_get (last (layers S') []) [p] = Some (File [0x10; 10; 0; 0; 0x20; 5; 5; 0x50; 1]) /\
+  fs_read (real_decompress Wrapping) S' p false = FOk b.
+Proof. exact real_example_fe10. Qed.
+Example C12_example_real_fe14 :
+  let S := mkFs [[]] (mkConfig LayeredFS.LZ13 GFE14 LE Unicode) EnglishNA in
+  let p := [97; 46; 108; 122] in
+  let b := [5; 5; 5; 5; 5; 5; 5; 5; 5; 5] in
+  let '(S', r) := fs_write (real_compress Checked) S p b false in
+  r = FOk tt /\ l_get (last (layers S') []) [p] = Some (File [0x13; 13; 0; 0; 0x11; 10; 0; 0; 0x20; 5; 5; 0x70; 1]) /\
+  fs_read (real_decompress Wrapping) S' p false = FOk b.
+Proof. exact real_example_fe14. Qed.
